@@ -90,3 +90,8 @@ package parser
 //@   ensures err == nil ==> ttype != nil
 //@   ensures old(parser.Token.Kind) != lexer.BRACKET_L && old(parser.Token.Kind) != lexer.NAME ==> err != nil
 //@   at call advance: assert parser.Token.Kind == lexer.BRACKET_L || parser.Token.Kind == lexer.BRACKET_R
+
+// Parse allocates the AST and leaves everything else alone (frame assumed; the productions are verified individually).
+//@ func Parse
+//@   trusted
+//@   assigns nothing
